@@ -24,7 +24,7 @@ META = {
             "targets the current server / an attempt is under way and then has no side effects; at quiescence exactly "
             "the current server's backend connection is open and the player is in exactly that server's player list; a "
             "successful switch lands on the destination; a safe failure leaves the previous server (same connection) or "
-            "a fallback; a kick falls back. SwitchImpl.tla models checkServer / setInFlightConnection / "
+            "a fallback; a kick falls back; a lone request to a backend that accepts it succeeds. SwitchImpl.tla models checkServer / setInFlightConnection / "
             "resetIfInFlightIs / connect()'s reset / handleKickEvent as separate steps; TLC checks the design shape, "
             "shows that each deviating code shape breaks the invariants, and exports schedules that the live rig forces "
             "on the real proxy through gate points; TLC then validates each recorded run against Switch.tla.",
@@ -60,6 +60,8 @@ CONSTANTS
   AllowKick = TRUE
   AllowQuit = TRUE
   Sequential = %s
+  FirstRound = FALSE
+  AckThenInstall = FALSE
   Export = TRUE
 INVARIANTS Emit
 """
@@ -255,6 +257,11 @@ def key_of(rj):
                     lv = [a for a in lv if a[1] != r["s"]]
             livenow = bool(lv)
             return "quiescent-state:%s:after-client-quit%s:%s" % (cfg, "-during-attempt" if livenow else "", ";".join(what))
+        if run[0].get("first") and any(r.get("ev") == "ret" and r.get("status") == "fail" and r.get("beh") == "accept" for r in before):
+            return "healthy-backend-request-failed:first-configuration-round:JoinGame-handled-before-transition-handler-installed"
+        if len(rets) == 1 and last.get("status") == "fail" and last.get("beh") in ("accept", "stall") and \
+                not any(r.get("ev") in ("kick", "quit") for r in before):
+            return "healthy-backend-request-failed:%s" % cfg
         kick = "+kick" if any(r.get("ev") == "kick" for r in before) else ""
         calls = [r for r in before if r.get("ev") == "call"]
         ctx = "after-%s(%s/%s)%s" % (last.get("status", "nothing"), last.get("beh", ""),
@@ -282,6 +289,18 @@ def run(ctx):
             raise vlib.ToolError("code shape '%s' does not violate the invariants: they are vacuous" % what)
         shapes[what] = rv.violated
     ctx.log("deviating code shapes violate: %s" % shapes)
+    rfirst = ctx.tlc("SwitchImpl", "SwitchImpl_first.cfg", count=False)
+    rrace = ctx.tlc("SwitchImpl", "SwitchImpl_firstrace.cfg", allow_violation=True, count=False)
+    if rrace.violated != "FirstJoinLands":
+        raise vlib.ToolError("first-round model: acknowledging before installing the handler does not lose the join (vacuous)")
+    shapes["acknowledgement written before the JoinGame handler is installed, backend not paused"] = rrace.violated
+    gfirst = ctx.tlc("SwitchImpl", cfg_text=open(vlib.SPEC + "/SwitchImpl_firstrace.cfg").read()
+                     .replace("Export = FALSE", "Export = TRUE").replace("INVARIANTS FirstJoinLands", "INVARIANTS Emit"),
+                     workers=1, count=False)
+    first_scheds = [x for x in gfirst.printed_json("SCHED")
+                    if [y["t"] for y in x["sched"]] == ["ack", "joingame", "install"]]
+    if not first_scheds:
+        raise vlib.ToolError("the first-round model did not export the schedule ack; JoinGame; install")
     ra = ctx.tlc("Switch", timeout=600)
     states += ra.distinct
     ctx.log("Switch.tla (abstract): %d distinct states" % ra.distinct)
@@ -298,6 +317,10 @@ def run(ctx):
     scheds = select(pool, ctx.pick(45, 300), rnd, ctx.pick(2, 20), ctx.pick(16, 110), ctx.pick(2, 12))
     for i, s in enumerate(scheds):
         s["ver"] = (763, 765)[(i + ctx.seed) % 2]
+    # the player's first connection with the forced order "acknowledgement; backend's JoinGame; handler
+    # installed" (1.20.2+ clients only: older ones have no configuration phase)
+    for ver in ctx.pick((765, 767), (764, 765, 766, 767, 774)):
+        scheds.append({"prog": {}, "sched": first_scheds[0]["sched"], "ver": ver, "first": True, "sequential": True})
     nseq = sum(1 for s in scheds if s["sequential"])
     ctx.log("schedules: %d (of %d simulated), %d sequential, %d with a kick"
             % (len(scheds), len(pool), nseq, sum(1 for s in scheds if any(x["k"] == "kick" for x in s["sched"]))) +
@@ -311,6 +334,8 @@ def run(ctx):
         ctx.log("schedules the rig could not set up (no verdict): %s" % st["skipped"][:4])
     if st["runs"] < 0.8 * len(scheds):
         raise vlib.ToolError("only %d of %d schedules could be driven: %s" % (st["runs"], len(scheds), (st.get("skipped") or [])[:4]))
+    if not st.get("first_connection_runs_held_at_ack"):
+        raise vlib.ToolError("hook_missing: no first-connection run was held at gate point cfg.acked")
     need = ["sw.checked", "sw.reset", "sw.failed"]
     missing = [g for g in need if not st["gate_arrivals"].get(g)]
     needev = ["chk", "start", "end", "conn", "call", "ret", "obs"]
